@@ -348,6 +348,7 @@ func join(a, b context, node parse.Node, nodeName string) context {
 		}
 	}
 	a.attr.dynamic = a.attr.dynamic || b.attr.dynamic
+	a.element.continued = a.element.continued || b.element.continued
 	a.attr.dynamicStart = a.attr.dynamicStart || b.attr.dynamicStart
 
 	if a.eq(b) {
